@@ -345,13 +345,14 @@ _RULE_EXTRA = {
            "second-remote (full or shallow clone, origin removed or kept, pushes to a second remote that is empty or holds a prefix; a crash of the command counts as a failed push), merge-shallow (after `fetch --depth 1|2`, `wrgl merge main <origin/main~j | sum>` in every mode: a moved branch head must have its table)"
            "; case indices 1, 5, 9, ... add one case of a second list of kinds: known-blocks (a commit whose table is made only of blocks of an earlier 2..3-block table - its first or last blocks - or has no rows, or is one row short of a block; fetch into an empty repository or a clone, push from a clone), "
            "colliding-dsts (two refspecs mapping different remote refs - a branch and a tag of one name on histories of their own, or two branches - onto one destination, as globs or explicitly; the destination holds one of its sources with its whole history), "
-           "boundary-cut (a packfile response ends exactly between two objects with io.ErrUnexpectedEOF or a stream reset; the remote's maximum packfile size is set so that a packfile ends after the first sent commit's table / after the commit / anywhere)",
+           "boundary-cut (a packfile response ends exactly between two objects with io.ErrUnexpectedEOF or a stream reset; the remote's maximum packfile size is set so that a packfile ends after the first sent commit's table / after the commit / anywhere)"
+           "; case indices 2, 10, 18, ... add a tips-cut case (2..3 branches with 0..2 commits of their own on a shared base that the local repository has cloned or not, fetched in one exchange with maximum packfile size default / 5000 / 700; the first or second packfile response with two or more objects ends on ANY of its object boundaries with io.ErrUnexpectedEOF - the fetch fails and is run again - or with a stream reset - the fetch negotiates again by itself)",
     "C10": "; every fourth case index adds one case of a kind chosen by the index (tag variant=…): overlap-specs (2..3 refspecs over the same remote heads into remotes/origin/*, a custom ref and remotes/mirror/*, every pattern of '+' in command-line order, after the remote moved forward / sideways / back; each destination is judged by the '+' of its own refspec), "
            "ff-config (merge.fastForward unset / never / only x no flag / --ff / --no-ff / --ff-only for merge and pull; the flag wins), merge-shallow (merge of a named commit of a depth-limited fetch: refused and reported when its table is absent, exact fast-forward otherwise)"
            "; case indices 1, 9, 17, ... add a listing-fault case (the first 1..2 listings of the remote's refs answer 500/502/503 before a push - which retries - or a fetch; diverged / ahead / unrelated / behind / equal branch, a tag pushed along that is new or clobbers the remote's); for every push the ref updates the client REQUESTED are recorded by the reference server: each must be one the gate accepts against the remote's true value and name that value as old",
     "C11": "; walks from 3..5 start points with a repeated one; 2 per DAG: CommitsQueue.RemoveAncestors(1..2 commits) on a frontier started from 1..3 commits and advanced by 0..2 pops, judged by reachability (exactly the ancestors leave, the rest keep their order); 4 per DAG (ops *-fault): IsAncestorOf (mostly about an ancestor of the commit with the longest history), a walk, SeekCommonAncestor (2..3 inputs) and RemoveAncestors while the store fails ONE read of a commit once, at a read the query really issues (counted on a healthy run): a definite answer - true/false, a finished walk, 'no common ancestor', the reduced frontier - must be right for the whole graph, an error is accepted only if the failure was delivered",
     "C12": "; 1 in 20: a repository directory (badger + SQLite files) with 1..3 transactions (in progress or committed, begun well before or after the time-to-live: default, 24h or 2h) staging 1..2 refs each, `wrgl gc` or `wrgl prune` through the command line, judged with the refs that exist afterwards as roots; 1 in 20: the SQLite ref store fails with a disk I/O error after 0..5 rows of a scan during prune (nothing reachable may go, success must mean complete), then a healthy re-run; 1 in 40: 30..60 commits over 25..40 tables on a real badger store; 1 in 10 (in addition to the index's own case, op prune-readfault): a repository with 2..5 refs pruned while the object store fails one read of one commit once - with an input/output error or by reporting the stored commit absent - (a ref's target that the mark phase reaches again through another ref or a descendant; any commit of a ref's history, first or second read; any ref's target), then a healthy re-run: nothing a ref reaches through answered reads may go (a ref whose target was reported absent counts as dangling), a run reporting success must have removed everything no ref reaches; the gc repositories run with the process's local zone at UTC, -05:00, +05:30 or -08:00 (by case index), away from UTC with transactions also half an hour short of / past the time-to-live; every other `wrgl gc` command-line case in a zone -05:00 / +09:00 / -10:00 with transactionTTL 1h when configured",
-    "C13": "; every write position also as a single injected write error (the operation continues): consistency, error reported or harmless, re-run; every crash point also as a recovery history (crash, a complete prune of the reopened repository, the operation again: same refs, every commit they reach and its table present, consistent); 1 in 4 cases: the fetch command's Fetch (default refspec) against the reference server, remote 1..3 commits ahead on main, optional second branch, 0..2 tags outside the refspec, 1..n packfiles; 1 in 4: one of the four kinds in a repository that also holds an unreachable commit; 1 in 12: `transaction commit` of an open transaction staging 1..3 branches (existing and new), staged as `wrgl commit --txid` does (write kinds and pairing from the extracted loop order; each interrupted run judged on its own branch order)",
+    "C13": "; every write position also as a single injected write error (the operation continues): consistency, error reported or harmless, re-run; every crash point also as a recovery history (crash, a complete prune of the reopened repository, the operation again: same refs, every commit they reach and its table present, consistent); 1 in 4 cases: the fetch command's Fetch (default refspec) against the reference server, remote 1..3 commits ahead on main, optional second branch, 0..2 tags outside the refspec, 1..n packfiles, the remote's commit times following the history (1 in 2) or running backwards / jumping either way / all equal (a commit may be older than its parent); 1 in 4: one of the four kinds in a repository that also holds an unreachable commit; 1 in 12: `transaction commit` of an open transaction staging 1..3 branches (existing and new), staged as `wrgl commit --txid` does (write kinds and pairing from the extracted loop order; each interrupted run judged on its own branch order)",
     "C14": "; 1 in 5 scenarios inject the fault into discard (crash or single error at each of its store operations) and discard again; commit faults as crash or single error; 1 in 5 scenarios: the fault is one failing SQL statement inside the ref store (trigger: either statement of a branch's logged ref update, the status flip, a staged-ref delete, the transaction-row delete), then re-run / discard; 1 in 100 (thorough 1 in 400): branches made and the transaction staged by `wrgl commit --txid` (file argument / branch.file / --all in turn), dumped before and after staging and after each `wrgl transaction commit/discard` (one with a staged commit unreadable); every third scenario (tag advance): 1..3 ordinary commits of other operations (ref.CommitHead on the raw stores, as `wrgl commit` does) land on any of the four branch names, mostly staged ones, anywhere in the sequence - before the first run, between an interrupted run and the re-run (on branches that run has moved and on ones it has not), after a discard, after the end; every state is judged by `branch-unmoved-or-moved-exactly-once` (a branch is where those commits alone would leave it, or carries the staged commit exactly once with the later ones on top: movedOnceHeads) and the model runs txAdvance",
     "C15": "; 1 in 8 logged sets run with a failing reflog insert (SQL trigger): must fail and change nothing; 1 in 4 sequences: logged sets with generated author, action, time and transaction id (two ids or none), then logged set + copy/rename + log read of the target; log entries are compared in all their fields; 1 in 5 sequences (tag store=fs): 60..130 ops (thorough 40..260) on the file-based store pkg/ref/fs over 17 file names and the names bulk renames make of them: three refs take most logged sets (entries of 60..400 bytes, generated author/e-mail/action/time, old value handed in as ref.SaveRef does), so logs reach dozens of entries over several 1024-byte chunks of the backward scanner; rename/copy also into directories that held no log; single-directory prefix listings, bulk delete/rename of remotes; logs read in between and for every name at the end; 1 case in 20 (tag fs-rejected): a file-store history that also holds renames / copies / plain sets the directory layout has to refuse (destination is an existing directory or lies below a bound name; c15FsDomain a7): they must fail and change nothing, sources are read and renamed again afterwards; 1 case in 40 (tag longlog): one ref of the SQL store takes 63..700 logged sets (thorough ..1500; half of the lengths on and next to 64/128/256/512), plain and with generated fields, a few other operations in between; its log is read, the ref is copied or renamed, the target log is read, extended and read again",
     "C16": "; 1 in 4 cases: a merge of 2..3 branches (256..955 rows) with a deleted block / block index of base or branch or reads failing after k, under a 75 s watchdog, and without fault compared with the one-processor outcome; the table index is compared too; 1 in 4 of the rest: the commit command's ingest helper on a store that refuses the k-th write (must return the error, never hang); 1 in 5 of the rest: a progress bar created with total in {-1,0,1,5,10,1000}, moved by 0..4 Incr/SetTotal/SetCurrent calls, finished with Done() under a 20 s timer, compared with Model/PBar.lean; the merge consumer reaches the merge channel 0 / 0.3 / 20 ms after Start() (by case index) and, like `wrgl merge`, asks the merger for Columns() and PK() on the first message: they must be the merged table's columns and key, with or without a fault; on 1 case index in 6 additionally an ingest through a store whose writes take 0.5 / 2 / 5 ms (tag slow-store) with more blocks than the sorted-block channel's buffer and the workers hold together (buffer + 2..3 x effective workers + 1, sometimes a few more; 1 in 3 with the sorter spilling several runs to disk), so that the producer blocks in its sends and the last block is sent into a full channel: same table, row and block count as the single-threaded run; three such inputs are corpus cases (corpus/C16/slowstore.jsonl)",
@@ -391,7 +392,8 @@ for _k, _v in _WIDEN_N.items():
     PROPS[_k].setdefault('widen_n', _v)
 
 _LEVEL_EXTRA = {
-    "C09": " Also: C09_tables_within_depth (the receiver ends with the table of every commit of the want's history within the requested depth, given that commons' tables are present at the receiver) and C09_transfer_closed_multi (several wants in one exchange).",
+    "C09": " Also: C09_tables_within_depth (the receiver ends with the table of every commit of the want's history within the requested depth, given that commons' tables are present at the receiver) and C09_transfer_closed_multi (several wants in one exchange). Interrupted transfers: cut at ANY object boundary of the sender's stream, every commit the receiver newly holds has its table (C09_interrupted_commit_has_table), which is what lets the retry skip stored commits; a receiver that sets tables aside until the packfile's end does not have this (C09_deferred_tables_unsafe).",
+    "C13": " Receive, commits: for ANY object stream (whatever order the sender chose) and any crash point or refusal every stored commit has all its parents, because the receiver looks the parents up before writing the commit (C13_receive_any_order_parents); without the look-up a child sent before its parent leaves an orphan (C13_unchecked_receive_unsafe).",
     "C05": " The per-cell decision chain is additionally tied to the source by a regenerated guard table: extract/paths.go lists the guards in front of every unresolveCol(i) of tryResolve, and C05_unresolve_table_is_model proves over all 216 situations of a step that the table fires exactly when the model's cellStep marks the column unresolved. Column-changing branches: the by-name resolution `resolveRecCols` used for them is proved to coincide with the same-columns resolution when all tables share the base's columns (C05_cols_model_extends_same).",
     "C06": " Block index codec: round trip, re-encoding and injectivity (C06_blockIndex_*); the pre-allocation cap of the decoders is extracted as never bounding a read loop. The store as a function of its history: a save reads back whatever the key held, other keys are untouched, delete unbinds, the same content again changes nothing (C06_save_reads_back, C06_store_op_keeps_other_keys, C06_delete_unbinds, C06_save_again_changes_nothing, C06_store_keys_distinct); the transaction store: committed (with partial commits anywhere) it holds exactly what the same calls leave in a plain store, i.e. what each save was GIVEN, it reads its own staged writes, and nothing reaches the database before a commit (C06_txn_commit_is_the_direct_history, C06_txn_reads_its_own_writes, C06_txn_staged_is_invisible_outside).",
     "C08": " Across wants: C08_all_wants (one whole call of enqueueWants: closed for every non-pending want, acceptable at every position, sound). Across the round's bookkeeping: C08_accepts_reachable_wants and C08_process_sound (Process accepts exactly the wants reachable from refs whatever the timestamps; every ack is a have that is an ancestor of a ref).",
